@@ -126,8 +126,20 @@ def check_isolation(case: typing.Any, ctx: Ctx) -> Info:
     d = ctx.scratch()
     try:
         wsp.write(ws, d)
+        twin_files = []
+        for tw in ws.get("twins", []):
+            # (a C09 fault may come with a namesake of the faulty definition in a further root directory of the same name)
+            twin_files.append(wsp.rel_path(ws, tw))
+            os.makedirs(os.path.dirname(os.path.join(d, twin_files[-1])), exist_ok=True)
+            with open(os.path.join(d, twin_files[-1]), "w") as f:
+                f.write(tw["text"])
         roots = [os.path.join(d, wsp.root_dir(ws, i)) for i in range(len(ws["roots"]))]
         mode = case["mode"]
+        forced_targets = None
+        if twin_files:
+            # the namesake stays outside the closure only as long as nothing but the self / cyclic reference names it: the faulty
+            # definition itself is the one target
+            mode, forced_targets = "files", [fault_desc["edges"][0][1]]
         if mode == "namespace":
             ri = case["root"] % len(roots)
             targets = wsp.defs_under_root(ws, ri)
@@ -140,6 +152,8 @@ def check_isolation(case: typing.Any, ctx: Ctx) -> Info:
             for t_ in case["targets"]:
                 if t_ % n not in targets:
                     targets.append(t_ % n)
+            if forced_targets is not None:
+                targets = forced_targets
             paths = [os.path.join(d, wsp.rel_path(ws, defs[i])) for i in targets]
 
             def run(handler: typing.Any) -> typing.Any:
@@ -189,6 +203,12 @@ def check_isolation(case: typing.Any, ctx: Ctx) -> Info:
                 continue
             victims.append(i)
             rel = wsp.rel_path(ws, defs[i])
+            with open(os.path.join(d, rel), "w") as f:
+                f.write(REPLACEMENTS[case["replacements"][k % len(case["replacements"])] % len(REPLACEMENTS)])
+            disturbed.append(rel)
+        for k, rel in enumerate(twin_files):
+            # the namesake of a self-referential / cyclic definition is not what the reference means: its text is as irrelevant as
+            # that of any other unreferenced file
             with open(os.path.join(d, rel), "w") as f:
                 f.write(REPLACEMENTS[case["replacements"][k % len(case["replacements"])] % len(REPLACEMENTS)])
             disturbed.append(rel)
@@ -259,7 +279,7 @@ def parts(ctx: Ctx) -> typing.List[Part]:
     fault = st.one_of(
         st.none(),
         st.none(),
-        st.fixed_dictionaries({"kind": st.sampled_from(["missing-name", "missing-version", "missing-relative-namesake", "missing-relative-namesake", "self", "wrong-case", "cycle"]), "carrier": st.integers(0, 30), "other": st.integers(0, 30)}),
+        st.fixed_dictionaries({"kind": st.sampled_from(["missing-name", "missing-version", "missing-relative-namesake", "missing-relative-namesake", "missing-qualified-namesake", "missing-qualified-namesake", "self", "wrong-case", "cycle", "self-with-twin", "cycle-with-twin"]), "carrier": st.integers(0, 30), "other": st.integers(0, 30)}),
     )
     cases = st.fixed_dictionaries(
         {
